@@ -43,9 +43,14 @@ SPEC = dict(
         "the identity (the rows are not already balanced and orthogonal, so the plain sum/mean would violate the oracle)"
     ),
     bound=dict(
-        quick="entries {-2..2}: all shapes m<=n<=3 except 3x3; 3x3 with entries {-1,0,1}; D(seed) m<=n<=5; scales "
-        "{1e-3,1,1e3}; prefs None,(1..m)/sum,(m..1),(1e-2,1,..); float64+float32; zero matrices up to 5x5",
-        thorough="as quick plus ALL 3x3 matrices with entries {-2..2} (1 953 125, 1 647 744 well-posed) at scale 1 in float64",
+        quick="well-posed integer matrices: entries {-2..2} for 1x1,1x2,1x3,2x2 (scales {1e-3,1,1e3} x float64/32); "
+        "entries {-1,0,1,2} for 2x3 (3 scales float64, float32 at scale 1); entries {-1,0,1} for 3x3 (scale 1, both "
+        "dtypes); D(seed) m<=n<=5 (3 scales, both dtypes); prefs None,(1..m)/sum,(m..1),(1e-2,1,..) and every one-hot "
+        "for Aligned-MTL; zero matrices of all shapes up to 5x5",
+        thorough="entries {-2..2} for all shapes up to 2x3 and {-1,0,1} for 3x3 (3 scales x both dtypes); 3x3 with "
+        "entries {-1,0,1,2} (262 144, 208 074 well-posed) at scale 1 float64, all configurations; ALL 3x3 with entries "
+        "{-2..2} (1 953 125, 1 647 744 well-posed) at scale 1 float64 for IMTL-G and ConFIG(None, increasing pref) only "
+        "(Aligned-MTL and the other prefs are not run on that largest list: stated bound); D(seed); zero matrices",
     ),
     assumptions=[
         "matrices off the finite alphabet are not covered; cond <= 50; scales 1e-3..1e3 only (IMTL-G's absolute guard is C11's business)",
@@ -57,6 +62,7 @@ SPEC = dict(
 
 ENT5 = (-2, -1, 0, 1, 2)
 ENT3 = (-1, 0, 1)
+ENT4 = (-1, 0, 1, 2)
 SCALES = (1.0, 1e-3, 1e3)
 COND_MAX = 50.0
 Q_MIN = 1e-6
@@ -74,20 +80,28 @@ def _blocks(N, size):
 
 
 def gen_cases(tier, seed):
+    """case fields: scales / dtypes = lists for the (scale, dtype) product; extra32 = additionally float32 at scale 1;
+    mode 'full' = all three aggregators with all preference vectors, 'lite' = IMTL-G and ConFIG(None, increasing pref)."""
     cases = []
     both = ["float64", "float32"]
-    bs = 60 if tier == "quick" else 150
-    for (m, n) in [(1, 1), (1, 2), (1, 3), (2, 2), (2, 3)]:
-        for lo, hi in _blocks(5 ** (m * n), bs):
-            cases.append(dict(kind="int", m=m, n=n, ent=list(ENT5), lo=lo, hi=hi, scales=list(SCALES), dtypes=both))
-    for lo, hi in _blocks(3 ** 9, bs):
-        cases.append(dict(kind="int", m=3, n=3, ent=list(ENT3), lo=lo, hi=hi, scales=list(SCALES), dtypes=both))
-    if tier == "thorough":
-        for lo, hi in _blocks(5 ** 9, 625):
-            cases.append(dict(kind="int", m=3, n=3, ent=list(ENT5), lo=lo, hi=hi, scales=[1.0], dtypes=["float64"]))
+
+    def add(m, n, ent, bs, scales, dtypes, mode="full", extra32=False):
+        for lo, hi in _blocks(len(ent) ** (m * n), bs):
+            cases.append(dict(kind="int", m=m, n=n, ent=list(ent), lo=lo, hi=hi, scales=list(scales), dtypes=dtypes, mode=mode, extra32=extra32))
+
+    for (m, n) in [(1, 1), (1, 2), (1, 3), (2, 2)]:
+        add(m, n, ENT5, 50, SCALES, both)
+    if tier == "quick":
+        add(2, 3, ENT4, 32, SCALES, ["float64"], extra32=True)
+        add(3, 3, ENT3, 100, [1.0], both)
+    else:
+        add(2, 3, ENT5, 125, SCALES, both)
+        add(3, 3, ENT3, 243, SCALES, both)
+        add(3, 3, ENT4, 1024, [1.0], ["float64"])
+        add(3, 3, ENT5, 3125, [1.0], ["float64"], mode="lite")
     for n in range(1, 6):
         for m in range(1, n + 1):
-            cases.append(dict(kind="dense", m=m, n=n, seed=seed, scales=list(SCALES), dtypes=both))
+            cases.append(dict(kind="dense", m=m, n=n, seed=seed, scales=list(SCALES), dtypes=both, mode="full", extra32=False))
     for m in range(1, 6):
         cases.append(dict(kind="zero", m=m, dtypes=both))
     return cases
@@ -168,7 +182,7 @@ def _one_hot(m, i):
     return e
 
 
-def _check_matrix(acc, J0, t, dtype, tag):
+def _check_matrix(acc, J0, t, dtype, tag, lite=False):
     """All three aggregators on t*J0 in dtype. J0 is certified well-posed by the caller."""
     import torch
 
@@ -183,6 +197,8 @@ def _check_matrix(acc, J0, t, dtype, tag):
     G = Jd @ Jd.T
     nontrivial = m >= 2 and float(np.abs(G - np.eye(m) * G[0, 0]).max()) > 1e-9 * s * s
     prefs = A.positive_pref_vectors(m)
+    if lite:
+        prefs = prefs[:2]
 
     # ---------------------------------------------------------------- IMTL-G
     Gn = G / (s * s)
@@ -249,6 +265,8 @@ def _check_matrix(acc, J0, t, dtype, tag):
             acc.outcomes.add(f"C{m}{n}:{pi}:{float((cos / pp).mean()):.2f}")
 
     # ---------------------------------------------------------------- Aligned-MTL
+    if lite:
+        return
     rows = []
     for i in range(m):
         x, _ = _call(acc, "aligned", _one_hot(m, i), Jt, dtype, desc)
@@ -327,7 +345,10 @@ def run_case(case):
             acc.dropped += 1
             acc.cnt("dropped_rank_or_cond")
             continue
+        lite = case.get("mode") == "lite"
         for t in case["scales"]:
             for dtype in case["dtypes"]:
-                _check_matrix(acc, J0, t, dtype, tag)
+                _check_matrix(acc, J0, t, dtype, tag, lite)
+        if case.get("extra32"):
+            _check_matrix(acc, J0, 1.0, "float32", tag, lite)
     return acc.result()
